@@ -409,7 +409,7 @@ func (c *Controller) flushEstablishedLink(el *establishedLink, hasNextLink bool)
 	el.cancel()
 
 	// close the directive if unreferenced (skipping unref dispose dir)
-	if !hasNextLink {
+	if !hasNextLink && len(peerLinks) == 0 {
 		_ = el.di.CloseIfUnreferenced(false)
 	}
 
